@@ -42,6 +42,33 @@ pub fn truth_values() -> Vec<V> {
     ]
 }
 
+/// further values used only by the thorough tier (limits, every sign/magnitude corner, more containers)
+pub fn more_truth_values() -> Vec<V> {
+    vec![
+        V::Int(2),
+        V::Int(i64::MIN),
+        V::Int(i64::MAX),
+        V::Float(f64::NEG_INFINITY),
+        V::Float(f64::MIN_POSITIVE),
+        V::Float(-5e-324),
+        V::Float(1e308),
+        V::Float(-1.0),
+        V::Char(' '),
+        V::Char('\u{e9}'),
+        V::Char('\u{10ffff}'),
+        V::Byte(1),
+        V::Byte(128),
+        V::Byte(255),
+        V::Str(" ".into()),
+        V::Str("\u{e9}".into()),
+        V::Str("null".into()),
+        arr(vec![V::Null]),
+        arr(vec![V::Bool(false)]),
+        map(vec![(V::Bool(false), V::Bool(false))]),
+        map(vec![(V::Str("".into()), V::Null)]),
+    ]
+}
+
 /// Run `prog` with globals a, b, obs(=[]) injected; returns (outcome, canon(obs), canon(r)) where r is global #3.
 pub fn eval3(prog: &str, a: &V, b: &V) -> Result<(Outcome, String, String), String> {
     guarded(|| {
@@ -69,15 +96,54 @@ pub fn eval3(prog: &str, a: &V, b: &V) -> Result<(Outcome, String, String), Stri
     })
 }
 
+/// as eval3 with a third injected global `c`
+pub fn eval4(prog: &str, a: &V, b: &V, c: &V) -> Result<(Outcome, String, String), String> {
+    guarded(|| {
+        let (p1, e1) = parse_only("let a = null; let b = null; let obs = null; let r = null; let c = null;");
+        assert!(e1.is_empty());
+        let mut c1 = Compiler::new();
+        c1.compile(p1).expect("prelude compiles");
+        let (p2, e2) = parse_only(prog);
+        if !e2.is_empty() {
+            return (Outcome::ParseErr, String::new(), String::new());
+        }
+        let mut c2 = Compiler::new_with_state(c1.symtab.clone(), c1.constants.clone());
+        if c2.compile(p2).is_err() {
+            return (Outcome::CompileErr, String::new(), String::new());
+        }
+        let mut vm = VM::new(c2.bytecode());
+        vm.globals[0] = to_object(a);
+        vm.globals[1] = to_object(b);
+        vm.globals[2] = to_object(&arr(vec![]));
+        vm.globals[4] = to_object(c);
+        let o = match vm.run() {
+            Ok(()) => Outcome::Value(canon(&vm.last_popped())),
+            Err(e) => Outcome::RtErr(e.msg.clone(), e.line),
+        };
+        (o, canon(&vm.globals[2]), canon(&vm.globals[3]))
+    })
+}
+
 const POSITIONS: &[&str] = &["!v", "if v", "while v", "v && probe", "v || probe", "if !v", "filter pattern"];
 
 pub struct P06 {
     vals: Vec<V>,
     e2e: bool,
+    /// chains `a OP1 p1(b) OP2 p2(c)` over all value triples (thorough only)
+    triples: bool,
 }
+const CHAINS: &[(&str, &str)] = &[("&&", "&&"), ("&&", "||"), ("||", "&&"), ("||", "||")];
 impl P06 {
-    pub fn new(_t: Tier) -> P06 {
-        P06 { vals: truth_values(), e2e: std::path::Path::new(&bin_path()).exists() }
+    pub fn new(t: Tier) -> P06 {
+        let mut vals = truth_values();
+        if t == Tier::Thorough {
+            vals.extend(more_truth_values());
+        }
+        P06 { vals, e2e: std::path::Path::new(&bin_path()).exists(), triples: t == Tier::Thorough }
+    }
+    fn n_pairs_end(&self) -> u64 {
+        let n = self.vals.len() as u64;
+        n * self.npos() + 2 * n * n
     }
     fn npos(&self) -> u64 {
         if self.e2e { POSITIONS.len() as u64 } else { POSITIONS.len() as u64 - 1 }
@@ -108,11 +174,16 @@ impl Property for P06 {
     }
     fn len(&self) -> u64 {
         let n = self.vals.len() as u64;
-        n * self.npos() + 2 * n * n
+        self.n_pairs_end() + if self.triples { n * n * n * CHAINS.len() as u64 } else { 0 }
     }
     fn describe(&self, idx: u64) -> Value {
         let n = self.vals.len() as u64;
         let single = n * self.npos();
+        if idx >= self.n_pairs_end() {
+            let v = unrank(idx - self.n_pairs_end(), &[n, n, n, CHAINS.len() as u64]);
+            let (o1, o2) = CHAINS[v[3] as usize];
+            return json!({"expr": format!("a {} p1(b) {} p2(c)", o1, o2), "a": self.vals[v[2] as usize].to_src(), "b": self.vals[v[1] as usize].to_src(), "c": self.vals[v[0] as usize].to_src()});
+        }
         if idx < single {
             let v = unrank(idx, &[n, self.npos()]);
             json!({"position": POSITIONS[v[1] as usize], "v": self.vals[v[0] as usize].to_src()})
@@ -125,6 +196,43 @@ impl Property for P06 {
     fn run(&self, idx: u64) -> CaseOut {
         let n = self.vals.len() as u64;
         let single = n * self.npos();
+        if idx >= self.n_pairs_end() {
+            // a OP1 p1(b) OP2 p2(c): && binds tighter than ||, both group to the left; each probe records its call
+            let v = unrank(idx - self.n_pairs_end(), &[n, n, n, CHAINS.len() as u64]);
+            let (a, b, c) = (&self.vals[v[2] as usize], &self.vals[v[1] as usize], &self.vals[v[0] as usize]);
+            let (o1, o2) = CHAINS[v[3] as usize];
+            let mut probes: Vec<i64> = vec![];
+            let and = |x: &V, y: &mut dyn FnMut() -> V| if x.falsey() { x.clone() } else { y() };
+            let or = |x: &V, y: &mut dyn FnMut() -> V| if x.falsey() { y() } else { x.clone() };
+            let want: V = match (o1, o2) {
+                ("&&", "&&") => { let l = and(a, &mut || { probes.push(1); b.clone() }); and(&l, &mut || { probes.push(2); c.clone() }) }
+                ("&&", "||") => { let l = and(a, &mut || { probes.push(1); b.clone() }); or(&l, &mut || { probes.push(2); c.clone() }) }
+                ("||", "||") => { let l = or(a, &mut || { probes.push(1); b.clone() }); or(&l, &mut || { probes.push(2); c.clone() }) }
+                _ => {
+                    // a || (p1(b) && p2(c))
+                    if a.falsey() {
+                        probes.push(1);
+                        if b.falsey() { b.clone() } else { probes.push(2); c.clone() }
+                    } else {
+                        a.clone()
+                    }
+                }
+            };
+            let want_obs = format!("[{}]", probes.iter().map(|p| format!("i{}", p)).collect::<Vec<_>>().join(","));
+            let prog = format!("let p1 = fn() {{ push(obs, 1); b }}; let p2 = fn() {{ push(obs, 2); c }}; r = a {} p1() {} p2(); r", o1, o2);
+            let class = format!("chain {} {} {}{}{}", o1, o2, if a.falsey() { "F" } else { "T" }, if b.falsey() { "F" } else { "T" }, if c.falsey() { "F" } else { "T" });
+            return match eval4(&prog, a, b, c) {
+                Err(m) => CaseOut::viol(class, format!("panicked: {}", m)),
+                Ok((Outcome::Value(g), obs, r)) => {
+                    if g == want.canon() && r == want.canon() && obs == want_obs {
+                        CaseOut::pass(class)
+                    } else {
+                        CaseOut::viol(class, format!("a={} b={} c={} in `a {} p1(b) {} p2(c)`: got {} (stored {}) probes {}; want {} probes {}", a.to_src(), b.to_src(), c.to_src(), o1, o2, g, r, obs, want.canon(), want_obs))
+                    }
+                }
+                Ok((o, _, _)) => CaseOut::viol(class, format!("a={} b={} c={}: unexpected {:?}", a.to_src(), b.to_src(), c.to_src(), o)),
+            };
+        }
         if idx < single {
             let v = unrank(idx, &[n, self.npos()]);
             let val = &self.vals[v[0] as usize];
@@ -196,7 +304,7 @@ impl Property for P06 {
         }
     }
     fn rule(&self) -> String {
-        format!("{} representative values (every kind with zero/non-zero, empty/non-empty, NaN, -0.0, smallest subnormal, strings \"0\"/\"false\", nested empty containers, closure, builtin, error object) in every truthiness position {:?}, and all ordered pairs for 'a && probe(b)' and 'a || probe(b)' where the probe records its evaluation; operands injected as real objects; oracle = the C06 table; class = (position/operator, kinds, truthiness)", self.vals.len(), POSITIONS)
+        format!("{} representative values (every kind with zero/non-zero, empty/non-empty, NaN, -0.0, smallest subnormal, strings \"0\"/\"false\", nested empty containers, closure, builtin, error object) in every truthiness position {:?}, and all ordered pairs for 'a && probe(b)' and 'a || probe(b)' where the probe records its evaluation; thorough: 21 further values (integer and float limits, negative subnormal, bytes 1/128/255, non-ASCII chars, containers holding only falsey values) and every value triple in the four chains 'a OP1 p1(b) OP2 p2(c)' (&& binds tighter than ||) with both probes recording; operands injected as real objects; oracle = the C06 table; class = (position/operator, kinds, truthiness)", self.vals.len(), POSITIONS)
     }
     fn bounds(&self) -> Value {
         json!({"values": self.vals.len(), "positions": self.npos(), "pairs": self.vals.len() * self.vals.len() * 2})
